@@ -132,6 +132,20 @@ fn table_case(g: &mut MG, i: u64) -> Vec<S> {
             let m = g.e(EK::Measure(Box::new(q)));
             vec![g.s(SK::Assign(t, None, m))]
         }
+        // set expressions keep every element, equal neighbours included
+        6 | 7 => {
+            let mk = |g: &mut MG, t: &str| if i == 6 { g.e(EK::Int(t.into())) } else { g.e(EK::Ident(t.into())) };
+            let names: [&str; 4] = if i == 6 { ["1", "1", "2", "2"] } else { ["b", "a", "a", "b"] };
+            let es: Vec<E> = names.iter().map(|t| mk(g, t)).collect();
+            let body = Body::Block(vec![g.s(SK::Break)]);
+            vec![g.s(SK::For(MTy::new(Base::Int, None), "lv".into(), Iterable::Set(es), body))]
+        }
+        8 => {
+            let b = g.ident();
+            let es: Vec<E> = ["0", "0", "3"].iter().map(|t| g.e(EK::Int((*t).into()))).collect();
+            let ix = g.e(EK::Index(Box::new(b), vec![MIndex::Set(es)]));
+            vec![g.s(SK::ExprStmt(ix))]
+        }
         // alias declarations: first statement of the file (4) and inside a block (5)
         k => {
             let q = g.operand();
@@ -149,7 +163,7 @@ fn table_case(g: &mut MG, i: u64) -> Vec<S> {
     }
 }
 
-const N_TABLE: u64 = 19 + 3 + 4 + 4 + 2;
+const N_TABLE: u64 = 19 + 3 + 4 + 4 + 2 + 3;
 
 impl Property for C06 {
     fn id(&self) -> &'static str {
